@@ -123,7 +123,29 @@ func (s *Seq) price(o Obs, market int) *big.Int {
 	return o.Price[market]
 }
 
-func (s *Seq) lm(ty int) *big.Int { return s.P.CollateralParams[ty].LiquidationRatio.BigInt() }
+// lm: the liquidation ratio in force of a type (1.5 for a type that is not listed: operations on it are refused
+// anyway, the amounts only have to be plausible)
+func (s *Seq) lm(ty int) *big.Int {
+	if cp := s.CP(ty); cp != nil {
+		return cp.LiquidationRatio.BigInt()
+	}
+	return dec("1.5").BigInt()
+}
+
+// spotID / liqID: the markets in force of a type (those of the genesis for a type that is not listed)
+func (s *Seq) spotID(ty int) int {
+	if cp := s.CP(ty); cp != nil {
+		return MarketID(cp.SpotMarketID)
+	}
+	return Types[ty].SpotID
+}
+
+func (s *Seq) liqID(ty int) int {
+	if cp := s.CP(ty); cp != nil {
+		return MarketID(cp.LiquidationMarketID)
+	}
+	return Types[ty].LiqID
+}
 
 func debtOf(cd *CDPObs) *big.Int { return new(big.Int).Add(cd.Prin, cd.Fees) }
 
@@ -136,6 +158,11 @@ func (s *Seq) Step(profile string) {
 	user := func() int { return 3 + r.Intn(nU) }
 	owner := func() int { return 3 + r.Intn(4) } // 4 owners, the other 2 are third-party depositors / keepers
 	ty := r.Intn(len(Types))
+	if s.CP(ty) == nil && r.Chance(75) { // mostly a listed type; the refusals for unlisted ones are cheap to cover
+		if l := listedTypes(&s.P); len(l) > 0 {
+			ty = c.Pick(r, l)
+		}
+	}
 	var existing *CDPObs
 	if len(o.Cdps) > 0 {
 		existing = &o.Cdps[r.Intn(len(o.Cdps))]
@@ -163,11 +190,25 @@ func (s *Seq) Step(profile string) {
 			w = 80
 		}
 	}
+	if s.focusN > 0 { // follow-up of a governance change: operations on the CDPs of the type it was about
+		s.focusN--
+		var mine []int
+		for i := range o.Cdps {
+			if o.Cdps[i].Ty == s.focusTy {
+				mine = append(mine, i)
+			}
+		}
+		if len(mine) > 0 {
+			existing = &o.Cdps[mine[r.Intn(len(mine))]]
+			ty = s.focusTy
+			w = c.Pick(r, []int{70, 70, 70, 45, 45, 35, 35, 5, 60}) // keeper, draw, withdraw, create, repay
+		}
+	}
 	switch {
 	case w < 18: // ---- create
 		ow := owner()
 		col := s.randColl(ty)
-		price := s.price(o, Types[ty].SpotID)
+		price := s.price(o, s.spotID(ty))
 		pm := maxDebt(col, Types[ty].CF, price, s.lm(ty))
 		var p *big.Int
 		tag := ""
@@ -264,7 +305,7 @@ func (s *Seq) Step(profile string) {
 				mine = d.Amt
 			}
 		}
-		need := minColl(debtOf(existing), Types[t].CF, s.price(o, Types[t].SpotID), s.lm(t))
+		need := minColl(debtOf(existing), Types[t].CF, s.price(o, s.spotID(t)), s.lm(t))
 		free := new(big.Int).Sub(existing.Coll, need)
 		var amt *big.Int
 		tag := ""
@@ -292,7 +333,7 @@ func (s *Seq) Step(profile string) {
 			return
 		}
 		t := existing.Ty
-		pm := maxDebt(existing.Coll, Types[t].CF, s.price(o, Types[t].SpotID), s.lm(t))
+		pm := maxDebt(existing.Coll, Types[t].CF, s.price(o, s.spotID(t)), s.lm(t))
 		room := new(big.Int).Sub(pm, debtOf(existing))
 		var p *big.Int
 		tag := ""
@@ -304,7 +345,11 @@ func (s *Seq) Step(profile string) {
 		case 3:
 			p, tag = bi(1), "one"
 		case 4:
-			p, tag = new(big.Int).Add(new(big.Int).Sub(s.P.CollateralParams[t].DebtLimit.Amount.BigInt(), o.TPrin[t]), bi(r.Range(0, 1))), "limit~"
+			lim := Pow10(18)
+			if cp := s.CP(t); cp != nil {
+				lim = cp.DebtLimit.Amount.BigInt()
+			}
+			p, tag = new(big.Int).Add(new(big.Int).Sub(lim, o.TPrin[t]), bi(r.Range(0, 1))), "limit~"
 		default:
 			p, tag = r.BigBelow(new(big.Int).Add(new(big.Int).Abs(room), bi(2))), "random"
 		}
@@ -363,6 +408,9 @@ func (s *Seq) Step(profile string) {
 	default: // ---- next block with oracle activity
 		tag := s.oracleActivity(o, existing, profile)
 		gap := c.Pick(r, []int64{0, 1, 1, 5, 60, 3600, 86400, 86400 * 30})
+		if s.GovPct > 0 && r.Chance(s.GovPct) {
+			s.Pending = s.Governance(o, existing)
+		}
 		s.NextBlock(gap, tag)
 	}
 }
@@ -384,7 +432,7 @@ func (s *Seq) oracleActivity(o Obs, existing *CDPObs, profile string) string {
 		}
 		both := r.Chance(60)
 		var pm *big.Int
-		cur := s.price(o, Types[t].LiqID)
+		cur := s.price(o, s.liqID(t))
 		k := r.Intn(10)
 		if profile == "boundary" && k >= 6 {
 			k = r.Intn(4)
